@@ -255,6 +255,7 @@ def canon_key(ex, obs=None) -> str:
             None if nd.gsrc is None else [nd.gsrc[0] == idx, nd.gsrc[1]],
             [nd.msrc[0] == idx, nd.msrc[1]],
             nd.pver,
+            None if nd.tsrc is None else paths.get(nd.tsrc, "gone"),
             pg_in,
             sorted(nd.pgs),
             twin(idx),
@@ -757,7 +758,13 @@ def clauses_c09(ex, obs) -> list:
                     what = "project-header"
                 elif key[0] == "type":
                     if comps <= {"created", "deleted"}:
-                        continue  # types it introduces or stops using
+                        # types it introduces or stops using - but a type that a stored
+                        # entity still links to has not stopped being used
+                        users = [k for k, v in obs["d"][wsn].items() if k[0] == "node" and v.get("type") == key[2]]
+                        if comps == {"deleted"} and users:
+                            out.append(("only-the-footprint-changes", f"{op[0]}:type-deleted-while-still-used:{key[1]}",
+                                        {"op": op, "ws": wsn, "type": key[2], "users": [str(u) for u in users][:3], "results": ex.results[-4:]}))
+                        continue
                     if comps == {"dsets"} and allow.get("own_type") == key[2]:
                         continue  # statistics cache of the target's own type
                     what = f"type:{key[1]}:" + "+".join(sorted(comps))
